@@ -22,6 +22,7 @@
 (*   answer  msg: what Generate returned / what the Stream chunks          *)
 (*           concatenate to                                                *)
 (*   error   steplimit BOOLEAN                                             *)
+(*   hang    the case was still running when the harness's watchdog fired  *)
 (*   endrun, end                                                           *)
 (*                                                                         *)
 (* What is demanded (nothing else):                                        *)
@@ -143,6 +144,7 @@ Apply(S, e) ==
          [] e.ev = "answer" -> AnswerRule(S, e)
          [] e.ev = "error" -> ErrorRule(S, e)
          [] e.ev = "endrun" -> EndRunRule(S, e)
+         [] e.ev = "hang" -> Bad(S, "agent-hangs")     \* "and stops": spec/ReAct.tla satisfies Terminates for every script
          [] e.ev = "end" -> IF S.inrun THEN Bad([S EXCEPT !.open = FALSE], "case-ended-inside-a-run")
                             ELSE IF S.nruns = 0 THEN Bad([S EXCEPT !.open = FALSE], "case-without-a-run")
                             ELSE [S EXCEPT !.open = FALSE]
